@@ -9,7 +9,8 @@ writes the intended answers in that format and layout is put behind the real Saf
 be the meaning, the returned action must be one of the offered actions, and the kwargs handed to learn must
 arrive unchanged (per row when the learner cannot take batches).  Every case with kwargs is also replayed with the
 kwargs handed over in each other kind of mapping (PAYLOADS: dict subclass, read-only proxy, UserDict, user Mapping,
-HashableSparse - Kwargs is Mapping[str, Any]), directly and through SequentialCB."""
+HashableSparse - Kwargs is Mapping[str, Any]), directly and through SequentialCB, and with the kwargs of every row
+filled in in that row's own key order, every name carrying its own value (KWO)."""
 import json, random
 import collections as _collections, types as _types
 from collections import abc as _abc
